@@ -701,6 +701,12 @@ def call_builtin(ex, name, args, kw, node):
     if name == "hasattr":
         x, a = args
         if isinstance(x, ObjV) and isinstance(a, StrV):
+            if a.s in ex.prop.fields and x.cls in (None, "?") and a.s in ex.prop.field_owners:
+                # the class is only known dynamically: the classes that declare the field
+                subs = set()
+                for o in ex.prop.field_owners[a.s]:
+                    subs |= ex.prop.subclasses(o)
+                return z3.Or(*[ex.prop.class_tag(x.ref) == ex.prop.class_id(s_) for s_ in sorted(subs)])
             if a.s in ex.prop.fields:
                 return z3.BoolVal(ex.prop.class_has_field(x.cls, a.s))
             return z3.BoolVal(False)
